@@ -129,8 +129,8 @@ func genBadTerm(rt *rapid.T, f int, rc int) string {
 }
 
 func TestRefusalRapid(t *testing.T) {
-	sec := vk.Sec("RefusalRapid")
-	vk.Check(t, 6000, 320000, func(rt *rapid.T) {
+	sec := vk.Sec(t.Name())
+	vk.Check(t, 40000, 1600000, func(rt *rapid.T) {
 		o := genOpt(rt)
 		rc := rapid.IntRange(0, rcCount-1).Draw(rt, "class")
 		var e exprCase
@@ -197,7 +197,10 @@ func TestRefusalRapid(t *testing.T) {
 		if _, rerr := refcron.Parse(text, o.ref); rerr == nil {
 			rt.Fatalf("C04 harness error: damaged expression %q (class %s, parser %s) is accepted by the reference parser", text, rcNames[rc], o.name)
 		}
-		s, err := o.parse(text)
+		s, err, pv := safeParse(o, text)
+		if pv != nil {
+			rt.Fatalf("C04 refusal violated: Parse panicked (%v) instead of returning an error for %q (class %s)\ncase: {parser=%s expr=%q}", pv, text, rcNames[rc], o.name, text)
+		}
 		if err == nil {
 			rt.Fatalf("C04 refusal violated: %q (class %s) was accepted and given a meaning (%+v)\ncase: {parser=%s expr=%q}", text, rcNames[rc], s, o.name, text)
 		}
